@@ -176,7 +176,7 @@ type childResult struct {
 func runChild(self string, sc scenario, seed int64, g, iters int, dir string, budget time.Duration) childResult {
 	// the soft deadline bounds the work (a loaded machine runs fewer operations); the budget is only a
 	// backstop far beyond it
-	softMs := int(budget/time.Millisecond) / 15
+	softMs := int(budget/time.Millisecond) / 20
 	t0 := time.Now()
 	res := childResult{Scenario: sc.Name, G: g, Iters: iters, Seed: seed}
 	logp := filepath.Join(dir, "race-"+sc.Name)
